@@ -107,6 +107,15 @@ def main():
         if tier != "quick":
             tasks.append(((c, c), 1, 2, 8))
             tasks.append(((c, c, c), 1, 1, 4))
+    # the shared-input family: the threads' inputs (const packets, const frame buffers) are the SAME objects
+    for pair in (("encshared", "encshared"), ("encshared", "statusshared"), ("decshared", "decshared")):
+        tasks.append((pair, 0, 99, 1))
+        tasks.append((pair, 1, 1, 1))
+        tasks.append((pair, 2, 1, 1))
+        if tier != "quick":
+            tasks.append((pair, 1, 2, 8))
+    if tier != "quick":
+        tasks.append((("encshared", "statusshared", "encshared"), 1, 1, 4))
     if tier != "quick":
         tasks.append((hand, 1, 2, 16))
         tasks.append((("deccont", "consume", "consume"), 1, 1, 8))
